@@ -31,12 +31,12 @@ CHECKS = {
    design="3/C17"),
  "C04": dict(
    text="Every model of the graph alphabet (all leaves and all binary operator combinations for two relations x tupleset variants, plus three-relation cyclic and nested families) is built under every map-iteration schedule within the budgets (start orders fully permuted on small graphs); on every accepted execution all node and edge weights must equal a reference computed on the AST graph: type sets as least fixpoint with operand-level semantics, weights as longest hop count in the type-relevant subgraph, Infinite iff a cycle is reachable.",
-   note="Known finding F10 (edge-wise evaluation of intersection/exclusion operands) is suppressed only where the observed maps equal its defect model exactly; map order is owned by build-time rewriting; operators matched structurally.",
+   note="Former known finding F10 (edge-wise evaluation of intersection/exclusion operands) is repaired in /repo (8bf67d8); its defect model stays in the check but is inert (a fixed entry suppresses nothing); map order is owned by build-time rewriting; operators matched structurally.",
    technique="exhaustive schedule exploration x bounded exhaustive model enumeration against a reference weight semantics",
    design="3/C04"),
  "C05": dict(
    text="Same exploration; on every schedule the verdict must be 'rejected with one of the three sentinel errors' exactly when the reference predicate finds the model ill-founded (rewrite-only cycle, intersection/exclusion on a cycle, TTU over an unrestricted/undefined tupleset or a parent lacking the relation, empty intersection, relation without terminal type).",
-   note="F10's defect model is the only suppression; TTU-defect models are injected at every operand position.",
+   note="No suppression is active (F10 is repaired); TTU-defect models are injected at every operand position; the verdict is also judged on a builder value that has built another model before.",
    technique="exhaustive schedule exploration x bounded exhaustive model enumeration against a reference well-foundedness predicate",
    design="3/C05"),
  "C06": dict(
